@@ -358,6 +358,23 @@ func cmdCheck(args []string) int {
 	if len(samples) == 0 {
 		cov["samples"] = []map[string]interface{}{{"note": "no discharged non-trivial obligation"}}
 	}
+	if *tier == "thorough" && os.Getenv("GOVC_REPO") == "" {
+		st := runSelftest(id)
+		cov["must_fail_corpus"] = st
+		for _, m := range st.Missed {
+			fmt.Printf("SELFTEST-MISS: %s stayed quiet on seeded change %s (verifier weakness, not a violation on /repo)\n", id, m)
+		}
+		fmt.Printf("must-fail corpus: %d run, %d caught, %d missed, %d skipped\n", st.Ran, st.Caught, len(st.Missed), len(st.Skipped))
+		// agreement between the three solvers
+		disagree := 0
+		for _, vc := range all {
+			if strings.Contains(vc.Model, "=sat") && strings.Contains(vc.Model, "=unsat") {
+				disagree++
+				fmt.Printf("SOLVER-DISAGREEMENT: %s: %s\n", vc.Obl, vc.Model)
+			}
+		}
+		cov["solver_disagreements"] = disagree
+	}
 	ev := map[string]interface{}{
 		"property_id": id,
 		"tier":        *tier,
